@@ -1,7 +1,7 @@
 (* Proofs/GenericTime.v — time_roundtrip: the request set_plc_time(us) makes the target's wall-clock
    object (Spec/TargetCore.v basic_request, class 0x8B) hold us, and the reply that object gives to
-   the request of get_plc_time is read back by get_plc_time as us — for every us < 2^64 that Python's
-   datetime can represent; beyond datetime.max get_plc_time raises OverflowError. *)
+   the request of get_plc_time is read back by get_plc_time as us — for every us < 2^64 (beyond
+   datetime.max the "datetime" / "string" renderings are None, the microsecond count is returned). *)
 From Coq Require Import String ZifyBool.
 From PV Require Import Base.Bytes Base.BytesLemmas Base.Res Base.Proto Base.PyStr.
 From PV Require Import Gen.Consts Gen.GenericFacts Gen.SeqGen Model.EnumMapDefs Model.Path Model.Generic.
@@ -128,15 +128,14 @@ Lemma get_plc_time_reads ses ctx toid seq d v :
   blen ctx = 8 -> 0 <= v < U64 ->
   get_plc_time_response (get_args d)
     (target_reply true ses ctx toid seq 3 (mr_ok ([1; 0; 11; 0; 0; 0] ++ le_enc 8 v)))
-  = if v <=? datetime_max_us then Ok {| tt_microseconds := Some v; tt_error := None |}
-    else Err (Foreign OverflowError).
+  = Ok {| tt_microseconds := Some v; tt_datetime := v <=? datetime_max_us; tt_error := None |}.
 Proof.
   intros Hc Hv. unfold get_plc_time_response.
   pose proof (reply_returned_ok (get_args d) ses ctx toid seq 3 ([1; 0; 11; 0; 0; 0] ++ le_enc 8 v) Hc) as Hr.
   change (a_connected (get_args d)) with true in Hr. rewrite Hr. cbn [bind a_dt get_args a_name].
   rewrite decode_clock_struct by exact Hv. cbn [gtag_truthy g_value g_error].
   replace (CodecPrim.dict_get [(Some get_plc_time_key, CodecPrim.VInt v)] (Some get_plc_time_key)) with (Ok (CodecPrim.VInt v)) by reflexivity.
-  cbn [bind]. destruct (v <=? datetime_max_us); reflexivity.
+  cbn [bind]. change get_plc_time_catches_overflow with true. destruct (v <=? datetime_max_us); reflexivity.
 Qed.
 
 (* ---------------------------------------------------------------- time_roundtrip *)
@@ -145,9 +144,9 @@ Definition handle_delivered (b : basic_state) (tr : transport) (cap : Z) (dl : d
   basic_request b tr cap {| mr_service := dl_service dl; mr_path := p; mr_data := dl_data dl |}.
 Definition dl_cia (dl : delivered) := (dl_class dl, dl_instance dl, dl_attribute dl).
 
-(* what get_plc_time gives for a clock value: the value, or OverflowError beyond datetime.max *)
+(* what get_plc_time gives for a clock value: the value (with its datetime rendering when one exists) *)
 Definition time_result (us : Z) : res time_tag :=
-  if us <=? datetime_max_us then Ok {| tt_microseconds := Some us; tt_error := None |} else Err (Foreign OverflowError).
+  Ok {| tt_microseconds := Some us; tt_datetime := us <=? datetime_max_us; tt_error := None |}.
 
 Definition clock_roundtrip (d : drv) (b : basic_state) (us : Z) : Prop :=
   exists d1 fr1 d2 fr2 b1 rp,
@@ -206,13 +205,4 @@ Proof.
   { intros tr cap p Hcap Hp. unfold handle_delivered.
     exact (clock_get (set_clock us b) tr cap p Hp Hcap). }
   intros ses ctx toid seq Hctx. unfold time_result. apply get_plc_time_reads; assumption.
-Qed.
-
-(* beyond datetime.max the value written cannot be read back: get_plc_time raises *)
-Corollary time_roundtrip_overflow d (b : basic_state) us :
-  drv_ok d = true -> d_connected d = true -> 1 <= d_seq d <= 65535 -> datetime_max_us < us < U64 ->
-  clock_roundtrip d b us /\ time_result us = Err (Foreign OverflowError).
-Proof.
-  intros Hd Hc Hs Hu. split; [apply time_roundtrip; try assumption; unfold datetime_max_us in Hu; lia |].
-  unfold time_result. replace (us <=? datetime_max_us) with false by lia. reflexivity.
 Qed.
